@@ -153,7 +153,7 @@ class YowProtocolLayer(YowLayer):
         self.toLower(iqEntity.toProtocolTreeNode())
 
     def processIqRegistry(self, protocolTreeNode):
-        if protocolTreeNode.tag == "iq":
+        if protocolTreeNode.tag == "iq" and protocolTreeNode["type"] in ("result", "error"):
             iq_id = protocolTreeNode["id"]
             if iq_id in self.iqRegistry:
                 originalIq, successClbk, errorClbk = self.iqRegistry[iq_id]
